@@ -283,8 +283,17 @@ func (g *docGen) damage() {
 	case op == 2 && len(inner) > 0:
 		bad := []int{tBadEsc, tBadHex, chTok(r.Intn(0x20), spRaw), chTok(0x0A, spRaw)}
 		insert(inner[r.Intn(len(inner))], bad[r.Intn(len(bad))])
-	case op == 3 && len(inner) > 0:
+	case op == 3 && len(inner) > 0 && r.Intn(2) == 0:
 		insert(inner[r.Intn(len(inner))], chTok(0xD800+r.Intn(0x800), spULower+r.Intn(2)))
+	case op == 3 && len(inner) > 0:
+		// two escapes that are not a surrogate pair: low-high, high-high, low-low, high + BMP
+		hi, lo := 0xD800+r.Intn(0x400), 0xDC00+r.Intn(0x400)
+		pairs := [][2]int{{lo, hi}, {hi, 0xD800 + r.Intn(0x400)}, {lo, 0xDC00 + r.Intn(0x400)}, {hi, r.Intn(0xD800)}, {hi, 0xE000 + r.Intn(0x2000)}}
+		p := pairs[r.Intn(len(pairs))]
+		at := inner[r.Intn(len(inner))]
+		sp := spULower + r.Intn(2)
+		insert(at, chTok(p[1], sp))
+		insert(at, chTok(p[0], sp))
 	default:
 		junk := []int{tComma, tColon, tRBrack, tRBrace, tLBrack, tLBrace, tBare, tNull, tQuote, numTok('-'), numTok('.'), numTok('+'), numTok('0')}
 		insert(gaps[r.Intn(len(gaps))], junk[r.Intn(len(junk))])
@@ -321,6 +330,7 @@ type c01Line struct {
 	Rej  []string `json:"rej"`  // versions whose CheckCanonicalJSON refused the input
 	ERej []string `json:"erej"` // versions whose EnforcedCanonicalJSON refused the input
 	EOut bool     `json:"eout"` // every accepting EnforcedCanonicalJSON returned out
+	SB   bool     `json:"sb"`   // every entry point, called repeatedly on one shared buffer, behaved as on a fresh copy
 }
 
 func observe(toks []int, echo bool) *c01Line {
@@ -347,6 +357,8 @@ func observe(toks []int, echo bool) *c01Line {
 			l.EOut = false
 		}
 	}
+	step, _ := sameBuffer(in, l.Vers, err == nil)
+	l.SB = step == ""
 	return l
 }
 
